@@ -20,14 +20,14 @@ def expect(name, cond, detail=""):
 
 def run(tier="quick", seed=0):
     bad = 0
-    r = run_tlc("MC_RTree", cfg=dict(constants=dict(D=1, C=3, N=2, MaxPS=2, Filter=False, Mode="design", QLoM=1, QHi=3, Shard=0, NShards=1), invariants=["DesignExact"]), timeout=600)
+    r = run_tlc("MC_RTree", cfg=dict(constants=dict(D=1, C=3, N=2, MaxPS=2, Filter=False, Mode="design", QLoM=1, QHi=3, Shard=0, NShards=1), invariants=["DesignExact"]), timeout=3000)
     bad += expect("RTree without NaN filter violates DesignExact", "DesignExact" in r.violated)
     base = dict(NIn=2, NOut=3, Mode="outside_uuid", Overwrite=False, PrevParts=0, MaxFaults=0, RetryMax=3, FixEmptyPlaceholder=False, AllowRerun=False)
-    r = run_tlc("PackFS", cfg=dict(spec="Spec", constants=base, invariants=["CleanFinal", "Returns"]), workers=4, timeout=900)
+    r = run_tlc("PackFS", cfg=dict(spec="Spec", constants=base, invariants=["CleanFinal", "Returns"]), workers=4, timeout=3000)
     bad += expect("PackFS without the placeholder fix violates CleanFinal / Returns", bool(r.violated))
-    r = run_tlc("Caches", cfg=dict(spec="Spec", constants=dict(Threads={1, 2}, Pattern="two_field", Keys={1, 2}), invariants=["UseSeesOwnAnswer"]), timeout=600)
+    r = run_tlc("Caches", cfg=dict(spec="Spec", constants=dict(Threads={1, 2}, Pattern="two_field", Keys={1, 2}), invariants=["UseSeesOwnAnswer"]), timeout=3000)
     bad += expect("two-field memo violates UseSeesOwnAnswer", bool(r.violated))
-    r = run_tlc("MC_ParquetDS", cfg=dict(constants=dict(MaxParts=12), invariants=["Sensitive"]), timeout=300)
+    r = run_tlc("MC_ParquetDS", cfg=dict(constants=dict(MaxParts=12), invariants=["Sensitive"]), timeout=3000)
     bad += expect("string order differs from numeric order beyond ten partitions (Sensitive holds)", not r.violated)
     # corrupted PackFS traces
     cfg = Cfg(n=8, nin=2, nout=3, mode="inside")
